@@ -498,7 +498,22 @@ func (r *c04Runner) run(lines []string) (out *c04Outcome, err error) {
 				msg.Value = append([]byte("SEALFAIL"), msg.Value...)
 			}
 			if pb.big {
-				msg.Value = append(msg.Value, bytes.Repeat([]byte("x"), 2*c04MaxBytes)...)
+				// beyond the limit through the value, the key, or a header - the limit is on the whole NATS message
+				pad := bytes.Repeat([]byte("x"), 2*c04MaxBytes)
+				switch k := 0; {
+				default:
+					for _, ch := range pb.cid {
+						k += int(ch)
+					}
+					switch k % 3 {
+					case 0:
+						msg.Value = append(msg.Value, pad...)
+					case 1:
+						msg.Key = pad
+					default:
+						msg.Headers = map[string][]byte{"pad": pad}
+					}
+				}
 			}
 			if pb.inbox {
 				msg.AckInbox = inbox
